@@ -6,18 +6,41 @@ Require Import Base.Wire Base.PyStr C04.Model C04.Sound C04.Assoc C04.Prune C04.
 Require gen.T04.
 Open Scope N_scope.
 
-(* ---- the table: setUser's DuplicateHostmask reaches a handler that undoes addHostmask ---- *)
-Definition hm_add_table_ok (hs : list (exn * bool)) : bool :=
-  match first_handler hs DuplicateHostmask with Some true => true | _ => false end.
+(* ---- the table: around users.setUser every command has a handler for
+   DuplicateHostmask that puts the live account back (hostmask add: only a mask
+   it added itself; register: also for addHostmask's ValueError) ---- *)
+Definition undo_ok (hs : list (exn * bool)) (e : exn) : bool :=
+  match first_handler hs e with Some true => true | _ => false end.
 
-Lemma T04_add_ok : hm_add_table_ok gen.T04.HM_ADD_HANDLERS = true.
+Definition cmd_tables_ok : bool :=
+  undo_ok gen.T04.HM_ADD_HANDLERS DuplicateHostmask && gen.T04.HM_ADD_GUARDED &&
+  undo_ok gen.T04.IDENTIFY_HANDLERS DuplicateHostmask && undo_ok gen.T04.UNIDENTIFY_HANDLERS DuplicateHostmask &&
+  undo_ok gen.T04.CHANGENAME_HANDLERS DuplicateHostmask && undo_ok gen.T04.REMOVE_HANDLERS DuplicateHostmask &&
+  undo_ok gen.T04.REGISTER_HANDLERS DuplicateHostmask && undo_ok gen.T04.REGISTER_HANDLERS ValueError.
+
+Lemma T04_ok : cmd_tables_ok = true.
 Proof. vm_compute. reflexivity. Qed.
 
+Lemma undo_ok_spec hs e : undo_ok hs e = true -> first_handler hs e = Some true.
+Proof. unfold undo_ok. destruct (first_handler hs e) as [[|]|]; try discriminate. reflexivity. Qed.
+
+Ltac table_fact := apply undo_ok_spec; vm_compute; reflexivity.
 Lemma T04_add_handler : first_handler gen.T04.HM_ADD_HANDLERS DuplicateHostmask = Some true.
-Proof.
-  pose proof T04_add_ok as H. unfold hm_add_table_ok in H.
-  destruct (first_handler gen.T04.HM_ADD_HANDLERS DuplicateHostmask) as [[|]|]; try discriminate. reflexivity.
-Qed.
+Proof. table_fact. Qed.
+Lemma T04_add_guarded : gen.T04.HM_ADD_GUARDED = true.
+Proof. vm_compute. reflexivity. Qed.
+Lemma T04_identify : first_handler gen.T04.IDENTIFY_HANDLERS DuplicateHostmask = Some true.
+Proof. table_fact. Qed.
+Lemma T04_unidentify : first_handler gen.T04.UNIDENTIFY_HANDLERS DuplicateHostmask = Some true.
+Proof. table_fact. Qed.
+Lemma T04_changename : first_handler gen.T04.CHANGENAME_HANDLERS DuplicateHostmask = Some true.
+Proof. table_fact. Qed.
+Lemma T04_remove : first_handler gen.T04.REMOVE_HANDLERS DuplicateHostmask = Some true.
+Proof. table_fact. Qed.
+Lemma T04_register : first_handler gen.T04.REGISTER_HANDLERS DuplicateHostmask = Some true.
+Proof. table_fact. Qed.
+Lemma T04_register_v : first_handler gen.T04.REGISTER_HANDLERS ValueError = Some true.
+Proof. table_fact. Qed.
 
 Section SameDb.
 Variables (t now : Z).
@@ -286,29 +309,49 @@ Proof.
   cbn [filter]. rewrite Hy. cbn [negb]. rewrite (IH Hl). reflexivity.
 Qed.
 
+(* an in-place edit u0 -> u2 of account uid refused by users.setUser, and undone *)
+Lemma refused_edit s uid u0 u2 s' e :
+  CacheInv s -> nget uid (s_users s) = Some u0 ->
+  setUser t now (store s uid u2) uid u2 = (s', Raise e) ->
+  e = DuplicateHostmask /\ nget uid (s_users s') = Some u2 /\
+  same_db (s_users s) (s_users (store s' uid u0)).
+Proof.
+  intros HC Hu E.
+  assert (HC' : CacheInv (store s uid u2)) by (apply CacheInv_users; exact HC).
+  assert (Hu2 : nget uid (s_users (store s uid u2)) = Some u2).
+  { unfold store. cbn [with_users s_users]. rewrite uset_nset. apply nget_nset_same. }
+  pose proof (setUser_refused (store s uid u2) uid u2 e HC' Hu2) as H. rewrite E in H. cbn [fst snd] in H.
+  destruct (H eq_refl) as [Ee [Hdb Hu']]. split; [exact Ee|]. split; [exact Hu'|].
+  unfold store in *. cbn [with_users s_users] in *. rewrite uset_nset in *.
+  apply (same_db_rollback _ _ u2); assumption.
+Qed.
+
 (* hostmask add, from the edit on: refused => the account list is put back *)
 Lemma add_commit_refused s4 uid u1 mask :
   CacheInv s4 -> nget uid (s_users s4) = Some u1 ->
-  existsb (ieq mask) (u_masks u1) = false ->
   snd (fst (add_commit t now s4 uid u1 mask)) = false ->
   same_db (s_users s4) (s_users (fst (fst (add_commit t now s4 uid u1 mask)))).
 Proof.
-  intros HC Hu Hfresh. unfold add_commit.
+  intros HC Hu. unfold add_commit.
   set (u2 := set_masks u1 (iset_add mask (u_masks u1))).
-  assert (HC' : CacheInv (store s4 uid u2)) by (apply CacheInv_users; exact HC).
-  assert (Hu2 : nget uid (s_users (store s4 uid u2)) = Some u2).
-  { unfold store. cbn [with_users s_users]. rewrite uset_nset. apply nget_nset_same. }
-  pose proof (setUser_refused (store s4 uid u2) uid u2) as Href.
-  destruct (setUser t now (store s4 uid u2) uid u2) as [s6 r6]. cbn [fst snd] in Href.
+  pose proof (refused_edit s4 uid u1 u2) as Href.
+  destruct (setUser t now (store s4 uid u2) uid u2) as [s6 r6].
   destruct r6 as [x|e]; [cbn; discriminate|].
-  destruct (Href e HC' Hu2 eq_refl) as [Ee [Hdb Hu6]]. subst e.
-  rewrite T04_add_handler, uget_nget, Hu6.
-  assert (Erm : iset_remove mask (u_masks u2) = Ok (u_masks u1)).
-  { unfold u2. cbn [set_masks u_masks]. apply iset_add_remove. exact Hfresh. }
-  rewrite !Erm. cbn [fst snd]. intros _. unfold store. cbn [with_users s_users]. rewrite uset_nset.
-  assert (Eu : set_masks u2 (u_masks u1) = u1) by (destruct u1; reflexivity).
-  rewrite Eu. apply (same_db_rollback _ _ u2); [exact Hu|].
-  unfold store in Hdb. cbn [with_users s_users] in Hdb. rewrite uset_nset in Hdb. exact Hdb.
+  destruct (Href s6 e HC Hu eq_refl) as [Ee [Hu6 Hdb]]. subst e.
+  rewrite T04_add_handler, T04_add_guarded. cbn [andb].
+  destruct (existsb (ieq mask) (u_masks u1)) eqn:Ehad.
+  - (* the account owned the mask: nothing was added, nothing is removed *)
+    cbn [fst snd]. intros _.
+    assert (Eu : u2 = u1) by (unfold u2, iset_add; rewrite Ehad; destruct u1; reflexivity).
+    unfold store in Hdb. cbn [with_users s_users] in Hdb. rewrite uset_nset in Hdb.
+    rewrite Eu in Hu6. rewrite (nset_noop _ _ _ Hu6) in Hdb. exact Hdb.
+  - rewrite uget_nget, Hu6.
+    assert (Erm : iset_remove mask (u_masks u2) = Ok (u_masks u1)).
+    { unfold u2. cbn [set_masks u_masks]. apply iset_add_remove. exact Ehad. }
+    rewrite !Erm. cbn [fst snd]. intros _.
+    assert (Eu : set_masks u2 (u_masks u1) = u1) by (destruct u1; reflexivity).
+    rewrite Eu. unfold store. cbn [with_users s_users]. rewrite uset_nset.
+    unfold store in Hdb. cbn [with_users s_users] in Hdb. rewrite uset_nset in Hdb. exact Hdb.
 Qed.
 
 Lemma add_prepare_R o s P name mask :
@@ -360,18 +403,12 @@ Proof.
   - destruct e; try exact R03. exact Hcont.
 Qed.
 
-(* ---- the other commands: every refusal that does not come out of setUser
-   happens before the account is edited ---- *)
-Ltac pre_phase HI Hb P E1 I1 B1 R1 :=
-  match goal with |- context [lookup ?t ?now ?s P] =>
-    destruct (lookup t now s P) as [[?s1 ?r1] ?a0] eqn:E1;
-    pose proof (lookup_R _ _ _ _ _ HI Hb E1) as R1; pose proof R1 as [I1 [B1 _]]
-  end.
-
+(* ---- the other commands: a refusal either happens before the account is
+   edited, or comes out of users.setUser and the handler undoes the edit ---- *)
 Lemma cmd_remove_R o s P name mask :
   Inv s -> ids_bounded s ->
   let out := cmd_remove t now o s P name mask in
-  r_ok out = false -> r_set out = false -> r_amb out = false -> same_db (s_users s) (s_users (r_st out)).
+  r_ok out = false -> r_amb out = false -> same_db (s_users s) (s_users (r_st out)).
 Proof.
   intros HI Hb. unfold cmd_remove.
   destruct (lookup t now s P) as [[s1 r1] a0] eqn:E1.
@@ -380,54 +417,84 @@ Proof.
   destruct (resolve_R _ _ _ _ I1 B1 E2) as [R2 Ht]. pose proof R2 as [I2 [B2 _]].
   assert (R02 : R (a0 || false) s s2) by (eapply R_trans; eassumption).
   rewrite orb_false_r in R02.
-  destruct tgt as [[uid u0]|]; [|cbn; intros _ _ Ea; apply R02; exact Ea].
+  destruct tgt as [[uid u0]|]; [|cbn; intros _ Ea; apply R02; exact Ea].
   specialize (Ht uid u0 eq_refl).
   destruct (authorised t now o s2 uid u0 P) as [s3 ok] eqn:E3.
   pose proof (authorised_R _ _ _ _ _ _ _ I2 B2 Ht E3) as R3.
   assert (R03 : R (a0 || false) s s3) by (eapply R_trans; eassumption).
-  rewrite orb_false_r in R03.
-  destruct (negb ok); [cbn; intros _ _ Ea; apply R03; exact Ea|].
-  destruct (uget uid (s_users s3)) as [u1|]; [|cbn; intros _ _ Ea; apply R03; exact Ea].
+  rewrite orb_false_r in R03. pose proof R03 as [I3 [B3 D3]].
+  destruct (negb ok); [cbn; intros _ Ea; apply D3; exact Ea|].
+  rewrite uget_nget. destruct (nget uid (s_users s3)) as [u1|] eqn:Eu1; [|cbn; intros _ Ea; apply D3; exact Ea].
   destruct (if seq_eqb mask ALL then Ok [] else iset_remove mask (u_masks u1)) as [ms|e];
-    [|cbn; intros _ _ Ea; apply R03; exact Ea].
+    [|cbn; intros _ Ea; apply D3; exact Ea].
+  pose proof (refused_edit s3 uid u1 (set_masks u1 ms)) as Href.
   destruct (setUser t now (store s3 uid (set_masks u1 ms)) uid (set_masks u1 ms)) as [s4 r4].
-  destruct r4; cbn; intros; discriminate.
+  destruct r4 as [x|e]; [cbn; intros; discriminate|].
+  destruct (Href s4 e (i_cache _ I3) Eu1 eq_refl) as [Ee [Hu4 Hdb]]. subst e.
+  rewrite T04_remove, uget_nget, Hu4. cbn [r_ok r_amb r_st]. intros _ Ea.
+  assert (Eu : set_masks (set_masks u1 ms) (u_masks u1) = u1) by (destruct u1; reflexivity). rewrite Eu.
+  eapply same_db_trans; [apply D3; exact Ea|exact Hdb].
 Qed.
 
 Lemma cmd_identify_R o s P name :
   Inv s -> ids_bounded s ->
   let out := cmd_identify t now o s P name in
-  r_ok out = false -> r_set out = false -> r_amb out = false -> same_db (s_users s) (s_users (r_st out)).
+  r_ok out = false -> r_amb out = false -> same_db (s_users s) (s_users (r_st out)).
 Proof.
   intros HI Hb. unfold cmd_identify.
   destruct (lookup t now s P) as [[s1 r1] a0] eqn:E1.
   pose proof (lookup_R _ _ _ _ _ HI Hb E1) as R1. pose proof R1 as [I1 [B1 _]].
   destruct (resolve s1 name) as [s2 tgt] eqn:E2.
-  destruct (resolve_R _ _ _ _ I1 B1 E2) as [R2 Ht].
+  destruct (resolve_R _ _ _ _ I1 B1 E2) as [R2 Ht]. pose proof R2 as [I2 [B2 _]].
   assert (R02 : R (a0 || false) s s2) by (eapply R_trans; eassumption).
-  rewrite orb_false_r in R02.
-  destruct tgt as [[uid u0]|]; [|cbn; intros _ _ Ea; apply R02; exact Ea].
-  destruct (o_pw o); [|cbn; intros _ _ Ea; apply R02; exact Ea].
-  destruct (addAuth now u0 P) as [u'|e]; [|cbn; intros _ _ Ea; apply R02; exact Ea].
+  rewrite orb_false_r in R02. pose proof R02 as [_ [_ D2]].
+  destruct tgt as [[uid u0]|]; [|cbn; intros _ Ea; apply D2; exact Ea].
+  specialize (Ht uid u0 eq_refl).
+  destruct (o_pw o); [|cbn; intros _ Ea; apply D2; exact Ea].
+  destruct (addAuth now u0 P) as [u'|e] eqn:Ea0; [|cbn; intros _ Ea; apply D2; exact Ea].
+  pose proof (refused_edit s2 uid u0 u') as Href.
   destruct (setUser t now (store s2 uid u') uid u') as [s3 r3].
   destruct r3 as [x|e]; [cbn; intros; discriminate|].
-  destruct (first_handler gen.T04.IDENTIFY_HANDLERS e); cbn; intros; discriminate.
+  destruct (Href s3 e (i_cache _ I2) Ht eq_refl) as [Ee [Hu3 Hdb]]. subst e.
+  rewrite T04_identify, uget_nget, Hu3. cbn [r_ok r_amb r_st]. intros _ Ea.
+  assert (Eu : set_auth u' (u_auth u0) = u0).
+  { rewrite (addAuth_shape _ _ _ _ Ea0). destruct u0; reflexivity. }
+  rewrite Eu. eapply same_db_trans; [apply D2; exact Ea|exact Hdb].
+Qed.
+
+Lemma opClearAuth_ok s uid s2 x :
+  CacheInv s -> opClearAuth s uid = (s2, Ok x) ->
+  exists u s1, nget uid (s_users s) = Some u /\ s_users s1 = s_users s /\ CacheInv s1 /\ s2 = store s1 uid (set_auth u []).
+Proof.
+  intros HC. unfold opClearAuth. rewrite uget_nget. destruct (nget uid (s_users s)) as [u|] eqn:Eu; [|intro E; inversion E].
+  destruct (invalidate_fold_ok (u_auth u) s HC) as [s1 [Hf [Hu1 [_ [_ [_ HC1]]]]]]. rewrite Hf.
+  intro E. inversion E. exists u, s1. split; [reflexivity|]. split; [exact Hu1|]. split; [exact HC1|]. reflexivity.
 Qed.
 
 Lemma cmd_unidentify_R s P :
   Inv s -> ids_bounded s ->
   let out := cmd_unidentify t now s P in
-  r_ok out = false -> r_set out = false -> r_amb out = false -> same_db (s_users s) (s_users (r_st out)).
+  r_ok out = false -> r_amb out = false -> same_db (s_users s) (s_users (r_st out)).
 Proof.
   intros HI Hb. unfold cmd_unidentify.
   destruct (lookup t now s P) as [[s1 r1] a0] eqn:E1.
   pose proof (lookup_R _ _ _ _ _ HI Hb E1) as [I1 [B1 D1]].
-  destruct r1 as [uid|e]; [|cbn; intros _ _ Ea; apply D1; exact Ea].
+  destruct r1 as [uid|e]; [|cbn; intros _ Ea; apply D1; exact Ea].
   destruct (opClearAuth s1 uid) as [s2 r2] eqn:E2.
   destruct r2 as [x|e].
-  - destruct (uget uid (s_users s2)) as [u|]; [|cbn; intros; discriminate].
-    destruct (setUser t now s2 uid u) as [s3 r3]. destruct r3; cbn; intros; discriminate.
-  - cbn. intros _ _ Ea.
+  - destruct (opClearAuth_ok _ _ _ _ (i_cache _ I1) E2) as [u [s1' [Hu [Hus [HC1 Es2]]]]]. subst s2.
+    assert (Hucl : nget uid (s_users (store s1' uid (set_auth u []))) = Some (set_auth u [])).
+    { unfold store. cbn [with_users s_users]. rewrite uset_nset. apply nget_nset_same. }
+    rewrite uget_nget, Hucl.
+    assert (Hu' : nget uid (s_users s1') = Some u) by (rewrite Hus; exact Hu).
+    pose proof (refused_edit s1' uid u (set_auth u [])) as Href.
+    destruct (setUser t now (store s1' uid (set_auth u [])) uid (set_auth u [])) as [s3 r3].
+    destruct r3 as [y|e]; [cbn; intros; discriminate|].
+    destruct (Href s3 e HC1 Hu' eq_refl) as [Ee [Hu3 Hdb]]. subst e.
+    rewrite T04_unidentify, !uget_nget, Hu3, Hu. cbn [r_ok r_amb r_st]. intros _ Ea.
+    assert (Eu : set_auth (set_auth u []) (u_auth u) = u) by (destruct u; reflexivity). rewrite Eu.
+    eapply same_db_trans; [apply D1; exact Ea|]. rewrite <- Hus. exact Hdb.
+  - cbn. intros _ Ea.
     assert (s2 = s1).
     { unfold opClearAuth in E2. destruct (uget uid (s_users s1)) as [u|]; [|inversion E2; reflexivity].
       destruct (invalidate_auth s1 (u_auth u)); inversion E2. reflexivity. }
@@ -437,7 +504,7 @@ Qed.
 Lemma cmd_changename_R o s P name newname :
   Inv s -> ids_bounded s ->
   let out := cmd_changename t now o s P name newname in
-  r_ok out = false -> r_set out = false -> r_amb out = false -> same_db (s_users s) (s_users (r_st out)).
+  r_ok out = false -> r_amb out = false -> same_db (s_users s) (s_users (r_st out)).
 Proof.
   intros HI Hb. unfold cmd_changename.
   destruct (lookup t now s P) as [[s1 r1] a0] eqn:E1.
@@ -446,7 +513,7 @@ Proof.
   destruct (resolve_R _ _ _ _ I1 B1 E2) as [R2 Ht]. pose proof R2 as [I2 [B2 _]].
   assert (R02 : R (a0 || false) s s2) by (eapply R_trans; eassumption).
   rewrite orb_false_r in R02.
-  destruct tgt as [[uid u0]|]; [|cbn; intros _ _ Ea; apply R02; exact Ea].
+  destruct tgt as [[uid u0]|]; [|cbn; intros _ Ea; apply R02; exact Ea].
   specialize (Ht uid u0 eq_refl).
   destruct (name_lookup_facts s2 newname (i_cache _ I2)) as [HC3 [Hu3 [Hc3 [Hr3 Hn3]]]].
   destruct (getUserIdByName s2 newname) as [s3 r3]. cbn [fst] in *.
@@ -457,23 +524,53 @@ Proof.
     - intros _. rewrite Hu3. apply same_db_refl. }
   assert (R03 : R (a0 || false) s s3) by (eapply R_trans; eassumption).
   rewrite orb_false_r in R03. pose proof R3 as [I3 [B3 _]].
-  destruct r3 as [x|e]; [cbn; intros _ _ Ea; apply R03; exact Ea|].
-  destruct (negb (o_name o)); [cbn; intros _ _ Ea; apply R03; exact Ea|].
+  destruct r3 as [x|e]; [cbn; intros _ Ea; apply R03; exact Ea|].
+  destruct (negb (o_name o)); [cbn; intros _ Ea; apply R03; exact Ea|].
   pose proof (checkHostmask_same false u0 P true) as Hs.
   destruct (checkHostmask false t now u0 P true) as [u1 x]. cbn [fst] in Hs.
   assert (Hu03 : nget uid (s_users s3) = Some u0) by (rewrite Hu3; exact Ht).
   pose proof (store_R s3 uid u0 u1 I3 B3 Hu03 Hs) as R4.
   assert (R04 : R (a0 || false) s (store s3 uid u1)) by (eapply R_trans; eassumption).
-  rewrite orb_false_r in R04.
-  destruct (truthy x || o_pw o); [|cbn; intros _ _ Ea; apply R04; exact Ea].
+  rewrite orb_false_r in R04. pose proof R04 as [I4 [B4 D4]].
+  destruct (truthy x || o_pw o); [|cbn; intros _ Ea; apply D4; exact Ea].
+  assert (Hu14 : nget uid (s_users (store s3 uid u1)) = Some u1).
+  { unfold store. cbn [with_users s_users]. rewrite uset_nset. apply nget_nset_same. }
+  pose proof (refused_edit (store s3 uid u1) uid u1 (set_name u1 newname)) as Href.
   destruct (setUser t now (store (store s3 uid u1) uid (set_name u1 newname)) uid (set_name u1 newname)) as [s5 r5].
-  destruct r5; cbn; intros; discriminate.
+  destruct r5 as [y|e5]; [cbn; intros; discriminate|].
+  destruct (Href s5 e5 (i_cache _ I4) Hu14 eq_refl) as [Ee [Hu5 Hdb]]. subst e5.
+  rewrite T04_changename, uget_nget, Hu5.
+  assert (Eu : set_name (set_name u1 newname) (u_name u1) = u1) by (destruct u1; reflexivity). rewrite Eu.
+  destruct (invalidate_id (store s5 uid u1) uid) as [s7|e7] eqn:Ei; cbn [r_ok r_amb r_st]; intros _ Ea.
+  - rewrite (invalidate_id_users _ _ _ Ei). eapply same_db_trans; [apply D4; exact Ea|exact Hdb].
+  - eapply same_db_trans; [apply D4; exact Ea|exact Hdb].
+Qed.
+
+(* deleting an account that was only just created *)
+Lemma same_db_ndel_fresh us id u us1 :
+  nget id us = None -> same_db (nset id u us) us1 -> same_db us (ndel id us1).
+Proof.
+  revert us1. induction us as [|[i v] us IH]; intros us1 Hn H.
+  - cbn [nset] in H. inversion H as [|? [i' v'] ? b [Hk _] Hr]; subst. inversion Hr; subst. cbn [fst] in Hk. subst i'.
+    unfold ndel. cbn [filter fst]. rewrite N.eqb_refl. cbn [negb]. constructor.
+  - cbn [nget] in Hn. destruct (N.eqb i id) eqn:E; [discriminate|]. cbn [nset] in H. rewrite E in H.
+    inversion H as [|? [i' v'] ? b [Hk Hle] Hr]; subst. cbn [fst snd] in *. subst i'.
+    unfold ndel. cbn [filter fst]. rewrite E. cbn [negb]. constructor; [split; [reflexivity|exact Hle]|].
+    apply IH; assumption.
+Qed.
+
+Lemma delUser_users s id u : nget id (s_users s) = Some u -> s_users (fst (delUser s id)) = ndel id (s_users s).
+Proof.
+  intro Hu. unfold delUser. rewrite uget_nget, Hu.
+  destruct (invalidate_id (with_users s (udel id (s_users s))) id) as [s1|e] eqn:Ei; cbn [fst].
+  - rewrite (invalidate_id_users _ _ _ Ei). reflexivity.
+  - reflexivity.
 Qed.
 
 Lemma cmd_register_R o s P name :
   Inv s -> ids_bounded s ->
   let out := cmd_register t now o s P name in
-  r_ok out = false -> r_set out = false -> r_amb out = false -> same_db (s_users s) (s_users (r_st out)).
+  r_ok out = false -> r_amb out = false -> same_db (s_users s) (s_users (r_st out)).
 Proof.
   intros HI Hb. unfold cmd_register.
   destruct (lookup t now s P) as [[s1 r1] a0] eqn:E1.
@@ -482,51 +579,89 @@ Proof.
   destruct (getUserIdByName s1 name) as [s2 rn]. cbn [fst] in *.
   assert (D02 : a0 = false -> same_db (s_users s) (s_users s2)).
   { intro Ea. rewrite Hu2. destruct R1 as [_ [_ D1]]. apply D1. exact Ea. }
-  destruct rn as [x|e]; [cbn; intros _ _ Ea; apply D02; exact Ea|].
-  destruct (negb (o_name o)); [cbn; intros _ _ Ea; apply D02; exact Ea|].
+  destruct rn as [x|e]; [cbn; intros _ Ea; apply D02; exact Ea|].
+  destruct (negb (o_name o)); [cbn; intros _ Ea; apply D02; exact Ea|].
+  assert (Hfresh : nget (s_next s2 + 1) (s_users s2) = None).
+  { destruct (nget (s_next s2 + 1) (s_users s2)) as [v|] eqn:Ev; [|reflexivity]. exfalso.
+    rewrite Hu2 in Ev. specialize (B1 _ _ Ev). rewrite Hn2 in B1. lia. }
   assert (Hgo : forall addmask,
     let out := (let '(s3, id) := newUser s2 in
-                if addmask && negb (o_long o) then Out (store s3 id (User name [] [] false)) false a0 true
+                let undo (s' : st) (e : exn) :=
+                  match first_handler gen.T04.REGISTER_HANDLERS e with
+                  | Some true => Out (fst (delUser s' id)) false a0 true
+                  | _ => Out s' false a0 true
+                  end in
+                if addmask && negb (o_long o) then undo (store s3 id (User name [] [] false)) ValueError
                 else let u := User name (if addmask then [P] else []) [] false in
                      let '(s4, r4) := setUser t now (store s3 id u) id u in
-                     match r4 with Ok _ => Out s4 true a0 false | Raise _ => Out s4 false a0 true end) in
-    r_ok out = false -> r_set out = false -> r_amb out = false -> same_db (s_users s) (s_users (r_st out))).
-  { intro addmask. destruct (newUser s2) as [s3 id].
-    destruct (addmask && negb (o_long o)); [cbn; intros; discriminate|].
-    cbv zeta. match goal with |- context [setUser ?a1 ?a2 ?a3 ?a4 ?a5] => destruct (setUser a1 a2 a3 a4 a5) as [s4 r4] end.
-    destruct r4; cbn; intros; discriminate. }
+                     match r4 with Ok _ => Out s4 true a0 false | Raise e => undo s4 e end) in
+    r_ok out = false -> r_amb out = false -> same_db (s_users s) (s_users (r_st out))).
+  { intro addmask. unfold newUser. cbv zeta. set (id := s_next s2 + 1) in *.
+    set (s3 := St (uset id (User [] [] [] false) (s_users s2)) (s_hcache s2) (s_hrev s2) (s_ncache s2) (s_nrev s2) id).
+    assert (HC3 : CacheInv s3) by (destruct HC2 as [A B C]; split; assumption).
+    assert (Hstore : forall u, s_users (store s3 id u) = nset id u (s_users s2)).
+    { intro u. unfold store, s3. cbn [with_users s_users]. rewrite !uset_nset. apply nset_nset_same. }
+    destruct (addmask && negb (o_long o)).
+    - rewrite T04_register_v. cbn [r_ok r_amb r_st]. intros _ Ea.
+      rewrite (delUser_users _ _ (User name [] [] false)); [|rewrite Hstore; apply nget_nset_same].
+      eapply same_db_trans; [apply D02; exact Ea|]. rewrite Hstore.
+      apply (same_db_ndel_fresh _ _ (User name [] [] false)); [exact Hfresh|apply same_db_refl].
+    - set (u := User name (if addmask then [P] else []) [] false).
+      assert (Hnu : nget id (s_users (store s3 id u)) = Some u) by (rewrite Hstore; apply nget_nset_same).
+      assert (HCs : CacheInv (store s3 id u)) by (apply CacheInv_users; exact HC3).
+      pose proof (setUser_refused (store s3 id u) id u) as Href.
+      destruct (setUser t now (store s3 id u) id u) as [s4 r4]. cbn [fst snd] in Href.
+      destruct r4 as [y|e4]; [cbn; intros; discriminate|].
+      destruct (Href e4 HCs Hnu eq_refl) as [Ee [Hdb Hu4]]. subst e4.
+      rewrite T04_register. cbn [r_ok r_amb r_st]. intros _ Ea.
+      rewrite (delUser_users _ _ u Hu4).
+      eapply same_db_trans; [apply D02; exact Ea|].
+      apply (same_db_ndel_fresh _ _ u); [exact Hfresh|]. rewrite <- Hstore. exact Hdb. }
   destruct r1 as [x|e1].
-  - destruct (o_owner o); [apply Hgo|cbn; intros _ _ Ea; apply D02; exact Ea].
-  - destruct e1; try (cbn; intros _ _ Ea; apply D02; exact Ea). apply Hgo.
+  - destruct (o_owner o); [apply Hgo|cbn; intros _ Ea; apply D02; exact Ea].
+  - destruct e1; try (cbn; intros _ Ea; apply D02; exact Ea). apply Hgo.
+Qed.
+
+Lemma cmd_secure_R o s P value :
+  Inv s -> ids_bounded s ->
+  let out := cmd_secure t now o s P value in
+  r_ok out = false -> r_set out = false -> r_amb out = false -> same_db (s_users s) (s_users (r_st out)).
+Proof.
+  intros HI Hb. unfold cmd_secure.
+  destruct (lookup t now s P) as [[s1 r1] a0] eqn:E1.
+  pose proof (lookup_R _ _ _ _ _ HI Hb E1) as [I1 [B1 D1]].
+  destruct r1 as [uid|e]; [|cbn; intros _ _ Ea; apply D1; exact Ea].
+  rewrite uget_nget. destruct (nget uid (s_users s1)) as [u|] eqn:Eu; [|cbn; intros _ _ Ea; apply D1; exact Ea].
+  destruct (negb (o_pw o)); [cbn; intros _ _ Ea; apply D1; exact Ea|].
+  pose proof (checkHostmask_same false u P gen.T04.SECURE_GUARD_USEAUTH) as Hs.
+  destruct (checkHostmask false t now u P gen.T04.SECURE_GUARD_USEAUTH) as [u1 x]. cbn [fst] in Hs.
+  pose proof (store_R s1 uid u u1 I1 B1 Eu Hs) as [_ [_ D2]].
+  destruct (truthy x).
+  - destruct (setUser t now _ uid _) as [s3 r3]. destruct r3; cbn; intros; discriminate.
+  - cbn. intros _ _ Ea. eapply same_db_trans; [apply D1; exact Ea|apply D2; reflexivity].
 Qed.
 
 (* ---- the theorem ---- *)
-(* the domain: no lookup of the command ran the Multiple-matches branch (whose
-   removal of the offending hostmasks is the lookup's own doing), and
-   - hostmask add: the mask is not already a mask of an account (any refusal
-     then qualifies, the one by users.setUser included);
-   - the other commands: the refusal did not come out of users.setUser (they
-     have no handler that undoes their edit: finding F23) *)
-Definition no_trace_dom (s : st) (c : cmd) (out : outcome) : Prop :=
-  r_amb out = false /\
-  match c with
-  | CAdd _ mask => forall i u, In (i, u) (s_users s) -> existsb (ieq mask) (u_masks u) = false
-  | _ => r_set out = false
-  end.
+(* the domain left: no lookup of the command ran the Multiple-matches branch
+   (whose removal of the offending hostmasks is the lookup's own doing); and for
+   user set secure, the refusal did not come out of users.setUser (that command
+   has no handler that puts the flag back: finding F26) *)
+Definition no_trace_dom (c : cmd) (out : outcome) : Prop :=
+  r_amb out = false /\ match c with CSecure _ => r_set out = false | _ => True end.
 
 Theorem refused_no_trace o s P c :
   Inv s -> ids_bounded s ->
   let out := run_cmd t now o s P c in
-  r_ok out = false -> no_trace_dom s c out ->
+  r_ok out = false -> no_trace_dom c out ->
   same_db (s_users s) (s_users (r_st out)).
 Proof.
-  intros HI Hb. unfold run_cmd.
+  intros HI Hb. unfold run_cmd, no_trace_dom.
   set (body := cmd_body t now o s P c).
   destruct (lookup t now (r_st body) P) as [[s' r'] a'] eqn:EL.
-  cbn [r_ok r_amb r_set r_st]. intros Hok [Hamb Hdom].
+  cbn [r_ok r_amb r_set r_st]. intros Hok [Hamb Hset].
   apply orb_false_iff in Hamb as [Hamb Ha']. subst a'.
   eapply same_db_trans; [|eapply lookup_same; exact EL].
-  unfold body in *. clear body EL. destruct c as [name mask|name mask|name| |name newname|name]; cbn [cmd_body] in *.
+  unfold body in *. clear body EL. destruct c as [name mask|name mask|name| |name newname|name|value]; cbn [cmd_body] in *.
   - (* hostmask add *)
     unfold cmd_add in *. pose proof (add_prepare_R o s P name mask HI Hb) as Hp.
     destruct (add_prepare t now o s P name mask) as [s1 amb|s4 amb uid u1].
@@ -534,14 +669,13 @@ Proof.
     + destruct Hp as [[I4 [B4 D4]] Hu1].
       pose proof (add_commit_refused s4 uid u1 mask (i_cache _ I4) Hu1) as Hc.
       destruct (add_commit t now s4 uid u1 mask) as [[s6 ok] raised]. cbn [fst snd r_ok r_amb r_st] in *.
-      specialize (D4 Hamb). eapply same_db_trans; [exact D4|]. apply Hc; [|exact Hok].
-      destruct (same_db_nget _ _ _ _ D4 Hu1) as [u0 [Hu0 [_ [Hm _]]]]. rewrite Hm.
-      apply (Hdom uid). apply nget_In. exact Hu0.
+      specialize (D4 Hamb). eapply same_db_trans; [exact D4|]. apply Hc. exact Hok.
   - apply cmd_remove_R; assumption.
   - apply cmd_identify_R; assumption.
   - apply cmd_unidentify_R; assumption.
   - apply cmd_changename_R; assumption.
   - apply cmd_register_R; assumption.
+  - apply cmd_secure_R; assumption.
 Qed.
 
 (* ---- an accepted hostmask add keeps the invariant ---- *)
@@ -598,6 +732,7 @@ Proof.
   destruct r6 as [[]|e].
   - cbn [fst snd]. destruct Hsetgen as [H|H]; [exact H|contradiction].
   - exfalso. destruct (first_handler gen.T04.HM_ADD_HANDLERS e) as [[|]|]; try (cbn in Hok; discriminate).
+    destruct (gen.T04.HM_ADD_GUARDED && existsb (ieq mask) (u_masks u1)); [cbn in Hok; discriminate|].
     destruct (uget uid (s_users s6)) as [u6|]; [|cbn in Hok; discriminate].
     destruct (iset_remove mask (u_masks u6)); cbn in Hok; discriminate.
 Qed.
@@ -625,7 +760,8 @@ Proof.
     destruct (getUserId t now s6 P) as [s' r']. cbn [fst] in Hl. cbn [r_st]. exact Hl.
 Qed.
 
-(* ---- outside the domain (finding F23): identify answers with an error, the login stays ---- *)
+(* ---- non-vacuity: the old witnesses of the repaired findings F23 / F24 and
+   the refused overlapping hostmask add are refusals inside the domain ---- *)
 Definition hQ : str := [113;33;113;64;113].                                  (* q!q@q *)
 Definition nU1 : str := [117;49].
 Definition orc_pw : oracle := Oracle true false true true true.
@@ -633,45 +769,49 @@ Definition f23_state : st :=
   run_ops 0 init [(1000%Z, ONew); (1000%Z, ONew); (1000%Z, OSet 1 (User nU1 [hAB] [] false));
                   (1000%Z, OSet 2 (User [117;50] [] [] false)); (1000%Z, OAuth 2 hAB)].
 
-Example identify_refused_with_trace :
+(* identify refused by users.setUser: the login is taken back *)
+Example identify_refused_no_trace :
   let out := run_cmd 0 1000 orc_pw f23_state hQ (CIdentify nU1) in
   r_ok out = false /\ r_amb out = false /\ r_set out = true /\
-  recognised_by 0 1000 f23_state hQ = [] /\ recognised_by 0 1000 (r_st out) hQ = [1].
+  s_users (r_st out) = s_users f23_state /\ recognised_by 0 1000 (r_st out) hQ = [].
 Proof. vm_compute. auto 6. Qed.
 
+(* hostmask add of an owned mask, refused because of another mask: the owned mask stays *)
+Definition hZZ : str := [122;122;33;122;122;64;122;122].
+Definition f24_state : st :=
+  run_ops 0 init [(1000%Z, ONew); (1000%Z, ONew); (1000%Z, OSet 1 (User nU1 [hAB; hZZ] [] false));
+                  (1000%Z, OSet 2 (User [117;50] [] [] false)); (1000%Z, OAuth 2 hZZ)].
+Example add_owned_refused_no_trace :
+  let out := run_cmd 0 1000 orc_pw f24_state hQ (CAdd nU1 hAB) in
+  r_ok out = false /\ r_amb out = false /\ r_set out = true /\ s_users (r_st out) = s_users f24_state.
+Proof. vm_compute. auto 6. Qed.
+
+(* bob adds a mask that overlaps alice's; users.setUser refuses; the edit is undone *)
+Definition add_state : st :=
+  run_ops 0 init [(1000%Z, ONew); (1000%Z, ONew); (1000%Z, OSet 1 (User nU1 [[97;98;33;42;64;121]] [] false));
+                  (1000%Z, OSet 2 (User [117;50] [hZZ] [] false))].
+Definition mWide : str := [42;33;42;64;121].                                 (* *!*@y *)
+
+Example add_refused_in_domain :
+  let out := run_cmd 0 1000 orc_pw add_state hZZ (CAdd [117;50] mWide) in
+  r_ok out = false /\ r_set out = true /\ no_trace_dom (CAdd [117;50] mWide) out /\ s_users (r_st out) = s_users add_state.
+Proof. vm_compute. auto 6. Qed.
+
+(* outside the domain (finding F26): user set secure refused by users.setUser keeps the flag *)
 Theorem refused_no_trace_refuted :
   exists t now o s P c,
     let out := run_cmd t now o s P c in
     r_ok out = false /\ r_amb out = false /\ r_set out = true /\ ~ same_db t now (s_users s) (s_users (r_st out)).
 Proof.
-  exists 0%Z, 1000%Z, orc_pw, f23_state, hQ, (CIdentify nU1). cbv zeta.
-  destruct identify_refused_with_trace as [A [B [C [D E]]]]. split; [exact A|]. split; [exact B|]. split; [exact C|].
-  intro H. apply same_db_pruned in H.
-  assert (Hn : nget 1 (s_users (r_st (run_cmd 0 1000 orc_pw f23_state hQ (CIdentify nU1)))) <> None) by (vm_compute; discriminate).
-  destruct (nget 1 (s_users (r_st (run_cmd 0 1000 orc_pw f23_state hQ (CIdentify nU1))))) as [u'|] eqn:Eu; [|congruence].
-  destruct (pruned_nget _ _ _ _ H Eu) as [u [Hu Hle]].
-  assert (Hr : recog_ever u' hQ = true).
-  { revert Eu. vm_compute. intro Eu. inversion Eu. reflexivity. }
-  specialize (Hle _ Hr). revert Hu Hle. vm_compute. intros Hu Hle. inversion Hu; subst. discriminate.
-Qed.
-
-(* ---- inside the domain: the refused hostmask add of the corpus (bob adds a mask
-   that overlaps alice's; users.setUser refuses; the edit is undone) ---- *)
-Definition add_state : st :=
-  run_ops 0 init [(1000%Z, ONew); (1000%Z, ONew); (1000%Z, OSet 1 (User nU1 [[97;98;33;42;64;121]] [] false));
-                  (1000%Z, OSet 2 (User [117;50] [[122;122;33;122;122;64;122;122]] [] false))].
-Definition mWide : str := [42;33;42;64;121].                                 (* *!*@y *)
-
-Example add_refused_in_domain :
-  let out := run_cmd 0 1000 orc_pw add_state [122;122;33;122;122;64;122;122] (CAdd [117;50] mWide) in
-  r_ok out = false /\ r_set out = true /\ no_trace_dom add_state (CAdd [117;50] mWide) out /\
-  s_users (r_st out) = s_users add_state.
-Proof.
-  cbv zeta. split; [vm_compute; reflexivity|]. split; [vm_compute; reflexivity|]. split; [|vm_compute; reflexivity].
-  split; [vm_compute; reflexivity|]. intros i u Hin. vm_compute in Hin.
-  destruct Hin as [E|[E|[]]]; inversion E; subst; vm_compute; reflexivity.
+  exists 0%Z, 1000%Z, orc_pw, f24_state, hAB, (CSecure (Some true)). cbv zeta.
+  split; [vm_compute; reflexivity|]. split; [vm_compute; reflexivity|]. split; [vm_compute; reflexivity|].
+  intro H.
+  assert (Hn : nget 1 (s_users (r_st (run_cmd 0 1000 orc_pw f24_state hAB (CSecure (Some true))))) =
+               Some (User nU1 [hAB; hZZ] [] true)) by (vm_compute; reflexivity).
+  destruct (same_db_nget _ _ _ _ _ _ H Hn) as [u [Hu [_ [_ [Hsec _]]]]].
+  revert Hu Hsec. vm_compute. intros Hu Hsec. inversion Hu; subst. discriminate.
 Qed.
 
 Example add_accepted_example :
-  r_ok (run_cmd 0 1000 orc_pw add_state [122;122;33;122;122;64;122;122] (CAdd [117;50] hQ)) = true.
+  r_ok (run_cmd 0 1000 orc_pw add_state hZZ (CAdd [117;50] hQ)) = true.
 Proof. vm_compute. reflexivity. Qed.
